@@ -1230,7 +1230,7 @@ Stylesheet::findTemplate(
                     // template rules, one for each alternative, so only
                     // the alternative this entry was made for counts...
                     XPath::eMatchScore  score =
-                                matchPat->getMatchScore(targetNode, *this, executionContext);
+                                matchPat->getMatchScore(targetNode, *rule, executionContext);
 
                     if(XPath::eMatchScoreNone != score)
                     {
@@ -1327,7 +1327,7 @@ Stylesheet::findTemplate(
                             matchPatPriority = matchScoreNoneValue;
 
                             XPath::eMatchScore  score =
-                                        matchPat->getMatchScore(targetNode, *this, executionContext);
+                                        matchPat->getMatchScore(targetNode, *rule, executionContext);
 
                             if(XPath::eMatchScoreNone != score)
                             {
